@@ -12,6 +12,7 @@ import (
 	"os"
 	"strings"
 	"testing"
+	"time"
 
 	"lunar/engine/streams"
 	"verifharness/eng"
@@ -172,12 +173,23 @@ func TestCheck(t *testing.T) {
 		r.Finish(t)
 		return
 	}
+	t0 := time.Now()
+	ph := func(n string) {
+		if os.Getenv("VERIF_DEBUG") != "" {
+			fmt.Fprintf(os.Stderr, "PHASE %s done at %v\n", n, time.Since(t0))
+		}
+	}
 	familyA(t, r, conds)
+	ph("A")
 	familyB(t, r, conds)
+	ph("B")
 	familyC(t, r)
+	ph("C")
 	familyD(t, r, conds)
+	ph("D")
 	familyD4(t, r)
 	familyD5(t, r, conds)
+	ph("D5")
 	r.Finish(t)
 }
 
@@ -194,6 +206,9 @@ func familyA(t *testing.T, r *mc.Run, conds []string) {
 		fg.Forward(keys, conds, 2, func(g fg.Graph) {
 			for shape := 0; shape < 3; shape++ {
 				idx++
+				if os.Getenv("VERIF_DEBUG") != "" && idx%500000 == 0 {
+					fmt.Fprintf(os.Stderr, "A n=%d idx=%d out-of-time=%v\n", n, idx, r.OutOfTime())
+				}
 				if !r.Mine(idx) {
 					continue
 				}
